@@ -658,6 +658,12 @@ class ValueMapping:
             valuemap_list = [f"{v}" for v in range(0, len(values_list))]
         else:
             valuemap_list = valuemap_qual.value
+            for valuemap_str in valuemap_list:
+                if valuemap_str is None:
+                    raise ModelError(
+                        _format("The value-mapped {0} has a ValueMap "
+                                "qualifier with a NULL entry: {1!A}",
+                                vm._element_str(), valuemap_list))
 
         # Verify and adjust the valuemap and values arrays
         values_size = len(values_list)
